@@ -4,54 +4,86 @@
 (*   PreSeed      database.store(sample, {}) for every sample, in order    *)
 (*   Complete(i)  the executor's callback for task i (any completion order *)
 (*                allowed by the pool, see ParallelExec): locked store of  *)
-(*                the outputs at samples[i]; a failing sample has no       *)
-(*                callback                                                 *)
+(*                what the evaluation of samples[i] produced               *)
 (*   RemoveEmpty  database.remove_empty_entries()                          *)
 (* against the sequential loop (evaluate in order, ValueError skips).      *)
-(* Samples may contain duplicates; failure is a function of the point.     *)
+(* Samples may contain duplicates; failure is a function of the point AND  *)
+(* of the evaluation: the functions of the problem are evaluated in the    *)
+(* order Evals (outputs, then Jacobians when eval_jac) and the evaluation  *)
+(* number failAt[p] raises (0: none).  The sequential loop keeps what was  *)
+(* evaluated before the failure (each function stores its own value); a    *)
+(* sample whose first evaluation fails leaves no entry.  The database      *)
+(* holds the Jacobians with respect to the design variables ("u"), also    *)
+(* when the driver works in the normalized space (normalize chosen in      *)
+(* Init).                                                                  *)
+(* Two designs are refuted by TLC (non-vacuity):                           *)
+(*   DropPartial = TRUE    a failing sample stores nothing                 *)
+(*   WorkerJacobian = TRUE the callback stores the Jacobian the worker     *)
+(*                         returns (w.r.t. the normalized variables, "n")  *)
 (***************************************************************************)
 EXTENDS Naturals, Sequences, FiniteSets, TLC
-CONSTANTS N, Points, NWorkers
-VARIABLES samples, failPts, db, pending, running, phase, order
-vars == <<samples, failPts, db, pending, running, phase, order>>
+CONSTANTS N, Points, NWorkers,
+          EvalJac,       \* eval_jac
+          FailStages,    \* the possible values of failAt[p]: subset of 0..Len(Evals)
+          DropPartial, WorkerJacobian
+VARIABLES samples, failAt, normalize, db, pending, running, phase, order
+vars == <<samples, failAt, normalize, db, pending, running, phase, order>>
 
 Idx == 1..N
-Has(d, p) == \E k \in 1..Len(d) : d[k].pt = p
-Put(d, p, filled) ==
-  IF Has(d, p)
-  THEN [k \in 1..Len(d) |-> IF d[k].pt = p THEN [d[k] EXCEPT !.filled = @ \/ filled] ELSE d[k]]
-  ELSE Append(d, [pt |-> p, filled |-> filled])
+\* the stored names in evaluation order (objective, constraint, then their Jacobians)
+Evals == IF EvalJac THEN <<"f", "c", "@f", "@c">> ELSE <<"f", "c">>
+IsJac(name) == name \in {"@f", "@c"}
+\* what the evaluation of point p stores before it stops
+Stored(p) == {Evals[j] : j \in {x \in 1..Len(Evals) : failAt[p] = 0 \/ x < failAt[p]}}
+Failed(p) == failAt[p] # 0
+JSpace(names, sp) == IF \E x \in names : IsJac(x) THEN sp ELSE "-"
 
-\* the sequential loop: one entry per distinct non-failing sample, in order of first occurrence
+Has(d, p) == \E k \in 1..Len(d) : d[k].pt = p
+\* store(p, names): a new entry at the end, or the union with the existing entry
+Put(d, p, names, sp) ==
+  IF Has(d, p)
+  THEN [k \in 1..Len(d) |-> IF d[k].pt = p
+                            THEN [d[k] EXCEPT !.names = @ \cup names,
+                                              !.jspace = IF JSpace(names, sp) = "-" THEN @ ELSE JSpace(names, sp)]
+                            ELSE d[k]]
+  ELSE Append(d, [pt |-> p, names |-> names, jspace |-> JSpace(names, sp)])
+
+\* the sequential loop: one entry per distinct sample that stored something, in order of first occurrence
 RECURSIVE SeqRun(_, _)
 SeqRun(k, d) == IF k > N THEN d
-                ELSE SeqRun(k + 1, IF samples[k] \in failPts THEN d ELSE Put(d, samples[k], TRUE))
+                ELSE SeqRun(k + 1, IF Stored(samples[k]) = {} THEN d
+                                   ELSE Put(d, samples[k], Stored(samples[k]), "u"))
 SeqDb == SeqRun(1, <<>>)
 
 Init == /\ samples \in [Idx -> Points]
-        /\ failPts \in SUBSET Points
+        /\ failAt \in [Points -> FailStages]
+        /\ normalize \in BOOLEAN
         /\ db = <<>> /\ pending = Idx /\ running = {} /\ phase = "preseed" /\ order = <<>>
 
 RECURSIVE Seed(_, _)
-Seed(k, d) == IF k > N THEN d ELSE Seed(k + 1, Put(d, samples[k], FALSE))
+Seed(k, d) == IF k > N THEN d ELSE Seed(k + 1, Put(d, samples[k], {}, "u"))
 PreSeed == /\ phase = "preseed" /\ db' = Seed(1, db) /\ phase' = "run"
-           /\ UNCHANGED <<samples, failPts, pending, running, order>>
+           /\ UNCHANGED <<samples, failAt, normalize, pending, running, order>>
 
 \* the pool takes tasks in index order, at most NWorkers at a time
 Start(i) == /\ phase = "run" /\ i \in pending /\ i \notin running
             /\ Cardinality(running) < NWorkers
             /\ \A j \in pending \ running : i <= j
             /\ running' = running \cup {i}
-            /\ UNCHANGED <<samples, failPts, db, pending, phase, order>>
-Complete(i) == /\ phase = "run" /\ i \in running
-               /\ db' = (IF samples[i] \in failPts THEN db ELSE Put(db, samples[i], TRUE))
-               /\ pending' = pending \ {i} /\ running' = running \ {i}
-               /\ order' = Append(order, i)
-               /\ UNCHANGED <<samples, failPts, phase>>
+            /\ UNCHANGED <<samples, failAt, normalize, db, pending, phase, order>>
+Complete(i) ==
+  /\ phase = "run" /\ i \in running
+  /\ LET p == samples[i]
+         names == IF DropPartial /\ Failed(p) THEN {} ELSE Stored(p)
+         sp == IF WorkerJacobian /\ normalize THEN "n" ELSE "u"
+     IN db' = (IF names = {} THEN db ELSE Put(db, p, names, sp))
+  /\ pending' = pending \ {i} /\ running' = running \ {i}
+  /\ order' = Append(order, i)
+  /\ UNCHANGED <<samples, failAt, normalize, phase>>
 RemoveEmpty == /\ phase = "run" /\ pending = {}
-               /\ db' = SelectSeq(db, LAMBDA e : e.filled)
+               /\ db' = SelectSeq(db, LAMBDA e : e.names # {})
                /\ phase' = "done"
-               /\ UNCHANGED <<samples, failPts, pending, running, order>>
+               /\ UNCHANGED <<samples, failAt, normalize, pending, running, order>>
 Next == PreSeed \/ (\E i \in Idx : Start(i) \/ Complete(i)) \/ RemoveEmpty
 Spec == Init /\ [][Next]_vars /\ WF_vars(Next)
 
@@ -63,6 +95,6 @@ OrderFixed == phase # "preseed" =>
       (CHOOSE k \in Idx : samples[k] = db[a].pt /\ \A j \in Idx : samples[j] = db[a].pt => k <= j)
     < (CHOOSE k \in Idx : samples[k] = db[b].pt /\ \A j \in Idx : samples[j] = db[b].pt => k <= j)
 Live == <>(phase = "done")
-View == <<samples, failPts, db, pending, running, phase>>
-Cases == phase = "done" => PrintT(<<"DOE", samples, failPts, order, [k \in 1..Len(db) |-> db[k].pt]>>)
+View == <<samples, failAt, normalize, db, pending, running, phase>>
+Cases == phase = "done" => PrintT(<<"DOE", samples, failAt, normalize, order, db>>)
 =============================================================================
